@@ -5,7 +5,7 @@ import ast
 import typing as T
 
 from ..core import Module, attr_chain, walk_no_nested, norm, short
-from .c06_types import Ty, SET_OPS
+from .c06_types import Ty, SET_OPS, base_name
 from .c06_order import (FC, Site, FuncNode, INSENSITIVE_FUNCS, PASSTHROUGH_FUNCS, SET_MUTATORS, SET_QUERIES, ITER_MUTATORS)
 from .c06_consume import OrderAnalyzer, V, _callee_last
 
@@ -34,20 +34,43 @@ class SiteScanner(OrderAnalyzer):
     def scan_function(self, mod: Module, fn: FuncNode, qual: str) -> T.List[Site]:
         fc = self._fc_chain(mod, fn, qual)
         out: T.List[Site] = []
+        seen: T.Set[int] = set()
         for n in fc._own_nodes():
-            if not isinstance(n, CANDIDATES):
-                continue
-            if isinstance(n, ast.Name) and not isinstance(n.ctx, ast.Load):
-                continue
-            if isinstance(n, ast.Attribute) and not isinstance(n.ctx, ast.Load):
-                continue
-            t = self.ty(n, fc)
-            if t.kind not in ('set', 'ambiguous'):
-                continue
-            s = self.consume(n, t, fc)
-            if s is not None:
-                out.append(s)
+            for e in self._consumed_exprs(n):
+                if id(e) in seen or not isinstance(e, CANDIDATES):
+                    continue
+                seen.add(id(e))
+                t = self.ty(e, fc)
+                if t.kind not in ('set', 'ambiguous'):
+                    continue
+                s = self.consume(e, t, fc)
+                if s is not None:
+                    out.append(s)
         return out
+
+    @staticmethod
+    def _consumed_exprs(n: ast.AST) -> T.Iterator[ast.AST]:
+        """Child expressions of n that sit in a position where iteration order could matter."""
+        if isinstance(n, (ast.For, ast.AsyncFor, ast.comprehension)):
+            yield n.iter
+        elif isinstance(n, ast.Call):
+            for a in n.args:
+                yield a.value if isinstance(a, ast.Starred) else a
+            for k in n.keywords:
+                yield k.value
+            if isinstance(n.func, ast.Attribute) and n.func.attr not in SET_MUTATORS and n.func.attr not in SET_QUERIES:
+                yield n.func.value
+        elif isinstance(n, ast.FormattedValue):
+            yield n.value
+        elif isinstance(n, ast.BinOp) and isinstance(n.op, (ast.Mod, ast.Add)):
+            yield n.left
+            yield n.right
+        elif isinstance(n, ast.AugAssign) and isinstance(n.op, ast.Add):
+            yield n.value
+        elif isinstance(n, (ast.List, ast.Tuple)):
+            for x in n.elts:
+                if isinstance(x, ast.Starred):
+                    yield x.value
 
     # ------------------------------------------------------------------
     def _site(self, fc: FC, node: ast.AST, value: ast.AST, t: Ty, consumer: str, v: V) -> Site:
@@ -128,6 +151,53 @@ class SiteScanner(OrderAnalyzer):
         # stores, returns, tests, set algebra: not consumers of the order
         return None
 
+    def _ctor_field(self, call: ast.Call, arg: ast.AST, fc: FC) -> T.Optional[T.Tuple[str, str]]:
+        """`arg` is passed to the constructor of a repository class: ('set', '') when the receiving __init__ parameter /
+        dataclass field is declared a set, ('stored', why) when it is a dataclass field of another declared type."""
+        n = attr_chain(call.func)
+        if not n:
+            return None
+        head = n.split('.')[0]
+        if fc.owner(head) is not None:
+            return None
+        rc = self.res.resolve_cls(fc.mod, n)
+        if rc is None:
+            return None
+        m, c = rc
+        fm = self.repo.find_method(m, c, '__init__')
+        if fm is not None:
+            pn = self._arg_param(call, arg, fm[2], True)
+            if pn is None:
+                return None
+            ann = {a.arg: a.annotation for a in fm[2].args.posonlyargs + fm[2].args.args + fm[2].args.kwonlyargs}.get(pn)
+            if ann is not None and self.res.ann_ty(ann, fm[0]).kind == 'set':
+                return ('set', '')
+            return None
+        # dataclass-style: positional order of the annotated class-level fields along the MRO (base first)
+        fields: T.List[T.Tuple[str, ast.AST, Module]] = []
+        for m2, c2 in reversed(self.repo.mro(m, c)):
+            for st in c2.body:
+                if isinstance(st, ast.AnnAssign) and isinstance(st.target, ast.Name):
+                    if base_name(st.annotation) == 'ClassVar':
+                        continue
+                    if isinstance(st.value, ast.Call) and any(k.arg == 'init' and isinstance(k.value, ast.Constant) and k.value.value is False
+                                                              for k in st.value.keywords):
+                        continue
+                    fields = [f for f in fields if f[0] != st.target.id] + [(st.target.id, st.annotation, m2)]
+        name: T.Optional[str] = None
+        for i, a in enumerate(call.args):
+            if a is arg and i < len(fields):
+                name = fields[i][0]
+        for k in call.keywords:
+            if k.value is arg:
+                name = k.arg
+        for fname, ann, m2 in fields:
+            if fname == name:
+                if self.res.ann_ty(ann, m2).kind == 'set':
+                    return ('set', '')
+                return ('stored', f'stored in field {c.name}.{fname}: {norm(ann)}')
+        return None
+
     @staticmethod
     def _esc(v: V, prefix: str) -> V:
         if v[0] == 'escapes':
@@ -151,7 +221,9 @@ class SiteScanner(OrderAnalyzer):
             rt = self.recv_ty(call, fc)
             if m in (SET_MUTATORS | SET_QUERIES) and rt.kind == 'set':
                 return self._site(fc, call, e, t, f'set.{m}()', ('benign', 'set algebra / fills a set'))
-            if m in ('update', 'union', 'intersection', 'difference') and rt.kind == 'unknown':
+            if m in SET_QUERIES or m in ('difference_update', 'intersection_update', 'symmetric_difference_update'):
+                return self._site(fc, call, e, t, f'.{m}()', ('benign', 'set algebra (only sets have this method)'))
+            if m == 'update' and rt.kind == 'unknown':
                 return self._site(fc, call, e, t, f'.{m}()', ('unknown', f'receiver of .{m}() has unknown kind'))
             if m in ('append', 'add', 'insert', 'setdefault', 'put') and not starred:
                 return None  # the set object itself is stored
@@ -168,6 +240,12 @@ class SiteScanner(OrderAnalyzer):
             return self._site(fc, call, e, t, label, self._esc(v, f'{label} of a set keeps hash order'))
         if starred:
             return self._site(fc, call, e, t, '*-unpacking', self._esc(self._call_arg_verdict(call, arg, fc, 0, seq=True), 'a set is *-unpacked in hash order'))
+        ctor = self._ctor_field(call, arg, fc)
+        if ctor is not None:
+            if ctor[0] == 'set':
+                return None      # stored in a field / constructor parameter declared a set
+            if ctor[0] == 'stored':
+                return self._site(fc, call, e, t, f'argument of {short(call.func, 40)}()', ('unknown', ctor[1]))
         v = self._call_arg_verdict(call, arg, fc, 0, seq=False)
         if v[0] == 'benign' and 'declared a set' in v[1]:
             return None
